@@ -29,4 +29,41 @@ theorem count_groups_a_copy (truth : Term → Bool) :
       [Term.app ".group_by" [Term.app ".copy" [Term.sym "self"], Term.app "*" [Term.sym "colnames"]],
        Term.app "=n" [Term.app "dataiter.count" []]]) := ⟨rfl, rfl⟩
 
+/-! ### split / aggregate: groups are the runs of the frame SORTED by the group columns, cut where `unique` finds a new key -/
+
+def byOnes (names : Term) : Term := Term.app "=**" [Term.app "dict.fromkeys" [names, Term.int 1]]
+
+/-- **split as written**: the key columns alone, tagged with the original row numbers (`_index_`), sorted ascending by all
+    keys (the stable sort of C03: rows of one key stay in original order), tagged with the sorted position; `unique` over the
+    keys gives the FIRST sorted position of every distinct key combination (a missing value is a key of its own there); the
+    original row numbers, in sorted order, are cut at those positions (`np.split(..., starts[1:])`). -/
+theorem split_code (truth : Term → Bool) :
+    DataFrame_split truth =
+      let keys := Term.app ".select" [Term.sym "self", Term.app "*" [Term.sym "by"]]
+      let index := Term.app "np.arange" [Term.app ".nrow" [keys]]
+      let sorted := Term.app ".sort" [keys, byOnes (Term.sym "by")]
+      let spos := Term.app "np.arange" [Term.app ".nrow" [sorted]]
+      let starts := Term.app "._sorted_index_" [Term.app ".unique" [sorted, Term.app "*" [Term.sym "by"]]]
+      Out.ret [Term.app "setattr" [keys, Term.sym "_index_", index], Term.app "setattr" [sorted, Term.sym "_sorted_index_", spos]]
+        (Term.app "np.split" [index, Term.app "getitem" [starts, Term.slice (some 1) none]]) := rfl
+
+/-- **aggregate, the grouping part**: the frame sorted ascending by the group columns (`data`), its rows numbered, one
+    summary row per distinct key combination = `data.unique(*group_colnames)` restricted to (`_index_`, the group columns) — so
+    the summary rows come in ascending key order and carry the key values of the first row of their group —, the row numbers
+    cut at the group starts (no rows ⇒ no group); the result is that summary frame with the bookkeeping columns removed. -/
+theorem aggregate_grouping (truth : Term → Bool) :
+    let g := Term.app "._group_colnames" [Term.sym "self"]
+    let data := Term.app ".sort" [Term.sym "self", byOnes g]
+    let index := Term.app "np.arange" [Term.app ".nrow" [data]]
+    let stat := Term.app ".select" [Term.app ".unique" [data, Term.app "*" [g]], Term.sym "'_index_'", Term.app "*" [g]]
+    ∃ effs, DataFrame_aggregate truth =
+      Out.ret (Term.app "setattr" [data, Term.sym "_index_", index] :: effs) (Term.app ".unselect" [stat, Term.sym "'_index_'", Term.sym "'_group_'"]) := by
+  unfold DataFrame_aggregate
+  dsimp only [byOnes]
+  split <;> exact ⟨_, rfl⟩
+
+theorem grouping_signatures :
+    DataFrame_aggregate_signature = ["self", "**colname_function_pairs"] ∧ DataFrame_split_signature = ["self", "*by"] ∧
+    DataFrame_modify_signature = ["self", "**colname_value_pairs"] := ⟨rfl, rfl, rfl⟩
+
 end DI.Tie.C04
